@@ -205,7 +205,7 @@ def check(run: Run, ctx) -> None:
             continue
         for pos, strat in enumerate(case.get("strategies") or [case["strategy"]]):
             c2 = {**case, "strategy": strat, "position_in_process": pos}
-            if not case["dup_ids"] and not case["int_status_keys"]:
+            if not case["dup_ids"]:
                 c2["predicted"] = pred.get((case["id"], strat))
             cases.append(c2)
             results.append(res["by_strategy"][strat])
